@@ -134,7 +134,7 @@ func judge(eng *Engine, cfg *Config, ck *CheckCfg, property, tier string, seed i
 			if r.Kind == "infeasible" {
 				continue
 			}
-			v := &violation{Entry: t.Entry.Entry, Label: r.Label, Kind: r.Kind, Msg: r.Msg, Pos: r.Pos, Fn: r.Fn, Picks: r.Picks, Draws: r.Draws, Finding: r.Finding, Second: r.Second}
+			v := &violation{Entry: t.Entry.Entry, Label: r.Label, Kind: r.Kind, Msg: r.Msg, Pos: r.Pos, Fn: r.Fn, Picks: r.Picks, Draws: r.Draws, Finding: r.Finding, Second: r.Second, EngineOnly: r.EngineOnly}
 			if crashKinds[r.Kind] {
 				if !ck.PanicsCount {
 					otherCrash++
@@ -209,13 +209,16 @@ func judge(eng *Engine, cfg *Config, ck *CheckCfg, property, tier string, seed i
 			v.Replay = filepath.Join(replayDir, fmt.Sprintf("%s-%x.json", v.Entry, h[:5]))
 			os.WriteFile(v.Replay, b, 0o644)
 			e := entryByName[v.Entry]
-			if e.Native == nil || *e.Native {
+			if v.EngineOnly {
+				v.Native = "not-replayable (assertion about the engine's lock / heap model, no native counterpart)"
+			} else if e.Native == nil || *e.Native {
 				toReplay = append(toReplay, v)
 			} else {
 				v.Native = "not-replayable (environment stubbed in this harness)"
 			}
 		}
 	}
+	nativeLabelPrefix = ck.Prefix
 	nativeReplay(eng, toReplay, entryByName)
 
 	// validation of the encoder against the real build on non-violating paths
